@@ -9,6 +9,8 @@ void register_c16();
 void register_c18();
 void register_c20();
 void register_io();
+void register_c14();
+void register_c12();
 void register_all_properties() {
   static bool done = false;
   if (done) return;
@@ -21,5 +23,7 @@ void register_all_properties() {
   register_c18();
   register_c20();
   register_io();
+  register_c14();
+  register_c12();
 }
 }
